@@ -65,7 +65,25 @@ fn make_set(env: &Env, rng: &mut Rng, bundled: &Arc<Voice>) -> Result<Set, Strin
                 env.remove(&p);
                 voices.push(Arc::new(v));
             }
-            Ok(Set { voices, descr: format!("{}x generated[{}]", n, o.describe()), identical: false })
+            // the same voice object listed twice in a row after a different one ([A, B, B]), or a
+            // voice that differs from the first one in its duration model only
+            let mut descr = format!("{}x generated[{}]", n, o.describe());
+            match rng.below(6) {
+                0 if voices.len() >= 2 && voices.len() < 4 => {
+                    let last = voices[voices.len() - 1].clone();
+                    voices.push(last);
+                    descr = format!("{} + the last voice object once more", descr);
+                }
+                1 if voices.len() >= 2 => {
+                    let mut c = (*voices[0]).clone();
+                    c.duration_model = voices[1].duration_model.clone();
+                    let k = voices.len() - 1;
+                    voices[k] = Arc::new(c);
+                    descr = format!("{} with the last voice = the first one with the second one's duration model", descr);
+                }
+                _ => {}
+            }
+            Ok(Set { voices, descr, identical: false })
         }
     }
 }
